@@ -95,6 +95,15 @@ def main():
     try:
         rc, out = sh("cargo build --offline 2>&1 | tail -5", cwd=EVAL_REPO)
         meta["builds"] = rc == 0 and "error" not in out
+        if a.skip_tests and a.keep_as:
+            # a re-evaluation of a change whose test run was recorded when it was first confirmed: keep that record
+            try:
+                prev = json.loads((Path("/verif/seeded") / a.keep_as / "meta.json").read_text())
+                for k in ("tests", "tests_pass"):
+                    if k in prev:
+                        meta[k] = prev[k]
+            except Exception:
+                pass
         if not a.skip_tests:
             rc, out = sh("cargo test --workspace --no-fail-fast --offline 2>&1 | grep 'test result'", cwd=EVAL_REPO)
             meta["tests"] = out.strip().split("\n")
